@@ -26,6 +26,7 @@ import (
 	"perun.network/go-perun/client"
 	"perun.network/go-perun/wallet"
 	"perun.network/go-perun/wire"
+	"perun.network/go-perun/wire/perunio"
 )
 
 // ToLedgerChannelProposalMsg converts a protobuf Envelope_LedgerChannelProposalMsg to a client
@@ -45,7 +46,13 @@ func ToLedgerChannelProposalMsg(protoEnvMsg *Envelope_LedgerChannelProposalMsg) 
 		return nil, errors.WithMessage(err, "participant address")
 	}
 	msg.Peers, err = ToWireAddrs(protoMsg.GetPeers())
-	return msg, errors.WithMessage(err, "peers")
+	if err != nil {
+		return nil, errors.WithMessage(err, "peers")
+	}
+	if len(msg.Peers) < channel.MinNumParts || len(msg.Peers) > channel.MaxNumParts {
+		return nil, errors.Errorf("expected %d-%d participants, got %d", channel.MinNumParts, channel.MaxNumParts, len(msg.Peers))
+	}
+	return msg, nil
 }
 
 // ToSubChannelProposalMsg converts a protobuf Envelope_SubChannelProposalMsg to a client SubChannelProposalMsg.
@@ -207,6 +214,9 @@ func ToBaseChannelProposal(protoProp *BaseChannelProposal) (prop client.BaseChan
 		return prop, errors.WithMessage(err, "init bals")
 	}
 	prop.FundingAgreement = ToBalances(protoProp.GetFundingAgreement())
+	if err = checkBalances(prop.FundingAgreement); err != nil {
+		return prop, errors.WithMessage(err, "funding agreement")
+	}
 	prop.App, prop.InitData, err = ToAppAndData(protoProp.GetApp(), protoProp.GetInitData())
 	copy(prop.Aux[:], protoProp.GetAux())
 	return prop, err
@@ -306,7 +316,34 @@ func ToAllocation(protoAlloc *Allocation) (alloc *channel.Allocation, err error)
 		}
 	}
 	alloc.Balances = ToBalances(protoAlloc.GetBalances())
-	return alloc, nil
+	if err = checkBalances(alloc.Balances); err != nil {
+		return nil, errors.WithMessage(err, "balances")
+	}
+	for i := range alloc.Locked {
+		if err = checkBalances(channel.Balances{alloc.Locked[i].Bals}); err != nil {
+			return nil, errors.WithMessagef(err, "%d'th sub alloc", i)
+		}
+	}
+	// The same limits and consistency checks as the native decoder.
+	return alloc, errors.WithMessage(alloc.Valid(), "invalid allocation")
+}
+
+// checkBalances enforces the limits of the native encoding on converted balances.
+func checkBalances(b channel.Balances) error {
+	if len(b) > channel.MaxNumAssets {
+		return errors.Errorf("expected maximum number of assets %d, got %d", channel.MaxNumAssets, len(b))
+	}
+	for _, row := range b {
+		if len(row) > channel.MaxNumParts {
+			return errors.Errorf("expected maximum number of parts %d, got %d", channel.MaxNumParts, len(row))
+		}
+		for _, bal := range row {
+			if (bal.BitLen()+7)/8 > perunio.MaxBigIntLength { //nolint:mnd
+				return errors.New("big.Int too big to decode")
+			}
+		}
+	}
+	return nil
 }
 
 // ToBalances converts a protobuf Balances to a channel.Balances.
